@@ -223,7 +223,7 @@ class C05(DecProp):
             "(b) every byte split of a valid picture across two deliveries (append part 1, decode, append part 2, decode) against the single delivery.  On the implementation's "
             "own output: after a call that returned an error the last picture, the reference picture, the carried-over option bits (hook `verif_running_options`) and the number of unread bits are those before the call (plus the bits appended), "
             "and a call that failed for lack of data, repeated after the rest was appended, yields the single-delivery picture; "
-            "(c) `leak`: a PLUSPTYPE picture that announces options (modified quantization, unrestricted vectors, ...) and is rejected after its header, followed by a picture "
+            "(b2) `junction`: two pictures in one source, the second 0..7 zero bits behind the first, delivered in two pieces cut at every byte around the junction; (c) `leak`: a PLUSPTYPE picture that announces options (modified quantization, unrestricted vectors, ...) and is rejected after its header, followed by a picture "
             "that carries no OPPTYPE of its own; (d) pictures of 8 KiB and more split, or corrupted, beyond their first 4 KiB.  Non-trivial: the line contains a failed call "
             "followed by a successful one; distinct by text.")
 
@@ -252,6 +252,8 @@ class C05(DecProp):
                 s = f"P {t[1]} a:{hx[:2 * k]};n;a:{hx[2 * k:]};n"
                 self._splits[s] = l
                 out.append(s)
+        # two pictures in one source (junction byte aligned or not), delivered in two pieces cut around the junction
+        out += core.gen_lines("junction", seed + 6, core.q(tier, 16, 160))
         # options announced by a rejected picture, then a picture that inherits its options
         out += core.gen_lines("leak", seed + 3, core.q(tier, 24, 240))
         # pictures of 8 KiB and more: deliveries split, and errors planted, beyond the first 4 KiB (after a small valid picture)
